@@ -83,6 +83,16 @@ var corpus = []Case{
 	{Note: "archive title outside", Prepop: "empty", Pushes: []Push{arch("../outdir", reg("../outdir/x"))}},
 	{Note: "manifest layer title outside", Prepop: "empty", Pushes: []Push{{Kind: "restore", Title: "../victim"}}},
 	// later additions
+	{Note: "regular entry over a DANGLING planted symlink: creates a new file next to the working directory (seeded defect C11-4: Stat instead of Lstat)", Prepop: "empty", Pushes: []Push{
+		arch("pkg", dir("pkg/d"), sym("pkg/d/s", ".."), sym("pkg/d/e", "s/../../new"), reg("pkg/d/e"))}},
+	{Note: "regular entry over a dangling planted symlink: new file in an existing outside directory", Prepop: "empty", Pushes: []Push{
+		arch("pkg", dir("pkg/"), dir("pkg/x/"), dir("pkg/x/y/"), sym("pkg/x/y/d", "../.."), sym("pkg/x/y/e", "d/../../outdir/created.txt"), reg("pkg/x/y/e"))}},
+	{Note: "regular entry over a dangling symlink planted through a pre-existing inside-pointing link", Prepop: "ds", Pushes: []Push{
+		arch("pkg", sym("pkg/d/e", "s/../../../outdir/newfile"), reg("pkg/d/e"))}},
+	{Note: "regular entry over a hard link to a dangling planted symlink", Prepop: "d", Pushes: []Push{
+		arch("pkg", sym("pkg/d/s", ".."), sym("pkg/d/e", "s/../../new"), link("pkg/x", "d/e"), reg("pkg/x"))}},
+	{Note: "directory entry over a dangling planted symlink, then a file below it", Prepop: "d", Pushes: []Push{
+		arch("pkg", sym("pkg/d/s", ".."), sym("pkg/d/e", "s/../../newdir"), dir("pkg/d/e"), reg("pkg/d/e/x"))}},
 	{Note: "hard link to a file of the process directory, then a named blob over the hard link", Fix: "24ab11d", Prepop: "empty", Pushes: []Push{
 		arch("pkg", link("pkg/x", "secret")), blob("pkg/x")}},
 	{Note: "hard link to a file of the process directory, then a manifest restoring a layer over it", Fix: "24ab11d", Prepop: "empty", Pushes: []Push{
